@@ -2,4 +2,8 @@
 
 package parser
 
+import "github.com/hattya/go.sh/ast"
+
 func verifPoint(int, <-chan struct{}) {}
+
+func verifToken(*lexer, int, ast.Pos, string, ast.Word) {}
